@@ -14,6 +14,7 @@ type cval struct {
 	typ   types.Type
 	sort  string
 	isNil bool
+	addr  string // for a struct value read from an embedded field: the address of that field
 }
 
 type cenv struct {
@@ -352,7 +353,11 @@ func (env *cenv) field(b cval, name string) cval {
 			continue
 		}
 		if isPtr {
-			return cval{term: g.loadFieldIn(env.cur, b.term, t, i), typ: f.Type(), sort: g.s.sortOf(f.Type())}
+			cv := cval{term: g.loadFieldIn(env.cur, b.term, t, i), typ: f.Type(), sort: g.s.sortOf(f.Type())}
+			if _, isS := f.Type().Underlying().(*types.Struct); isS && isDecomposedStruct(f.Type()) {
+				cv.addr = g.emb(t, f.Name(), b.term)
+			}
+			return cv
 		}
 		if !isDecomposedStruct(t) {
 			env.fail("field %s of opaque struct value %s", name, typeName(t))
@@ -510,7 +515,7 @@ func (env *cenv) call(e *CExpr) cval {
 		if a.typ != nil {
 			if mt, ok := a.typ.Underlying().(*types.Map); ok {
 				_, _, ln := g.mapArrs(mt)
-				return env.intv(fmt.Sprintf("(select %s %s)", g.get(env.cur, ln), a.term))
+				return env.intv(fmt.Sprintf("(ite (= %s 0) 0 (select %s %s))", a.term, g.get(env.cur, ln), a.term))
 			}
 		}
 		env.fail("len of %s", args[0])
@@ -606,7 +611,7 @@ func (env *cenv) call(e *CExpr) cval {
 		if !ok {
 			env.fail("lastret(%s): the event never occurs in this function", ev)
 		}
-		return cval{term: g.get(env.cur, rn), sort: srt}
+		return cval{term: g.get(env.cur, rn), sort: srt, typ: g.retTypes[ev]}
 	case "now":
 		g.stateVar("G.now", "Int")
 		return env.intv(g.get(env.cur, "G.now"))
@@ -722,6 +727,12 @@ func (env *cenv) specCall(sf *SpecFunc, args []*CExpr) cval {
 			v.sort, v.typ = ps, pt
 			if ps == "Iface" {
 				v.term = "iface-nil"
+			}
+		}
+		if v.sort != ps && v.addr != "" && ps == "Int" && pt != nil {
+			// an embedded struct passed where a pointer is expected: its address
+			if ptr, ok := pt.Underlying().(*types.Pointer); ok && types.Identical(ptr.Elem(), v.typ) {
+				v = cval{term: v.addr, typ: pt, sort: "Int"}
 			}
 		}
 		if v.sort != ps {
